@@ -4,5 +4,10 @@ CHECKS = {
   "note": "Trusted: the independent CIGAR walk in vlib/checks/c16.py, pysam record construction. Domain excludes N-delimited segments without aligned bases (dropped on purpose by the code).",
   "technique": "runtime contracts (icontract post-condition + reference-model oracle) on the real functions, bounded-exhaustive + random workload",
  },
+ "C19": {
+  "text": "Bounded-exhaustive runtime contracts: icontract post-conditions with set-of-positions oracles on the real interval primitives of src/common.py, GeneInfo.split_exons, FeatureProfiles.set_profiles and both read-profile constructors, driven over every interval pair, every sorted disjoint interval list (x every position), every pair of lists, every small exon set and every (known transcript, read) pair over a universe of 6-9 positions, plus random large instances, plus the repository's own tests executed with the contracts on. Exhaustive inside the bound only.",
+  "note": "Trusted: the set oracles in vlib/contracts19.py. Pre-conditions are the functions' documented ones (sorted disjoint lists); the read-profile oracle is applied only where each read feature lies within delta of at most one known feature and features are longer than delta; truncate_read_to_polya only for tail positions inside the read's exons; overlaps_at_least (a heuristic predicate without set semantics) is not contracted.",
+  "technique": "runtime contracts (icontract post-conditions with set-theoretic oracles) on the real functions, bounded-exhaustive workload",
+ },
 }
 NOT_APPLICABLE = {}
